@@ -278,8 +278,9 @@ class Run(object):
             except Exception:
                 pass
         self.files = []
-        self.keep = []
-        gc.collect()
+        if self.keep:
+            self.keep = []
+            gc.collect()
         return r
 
 
